@@ -45,9 +45,17 @@ const (
 	engHTTP engine = iota
 	engFresh
 	engReused
+	// engNoReset: ONE value for all requests of the instance like engReused, but the pool FORGETS
+	// Reset() before some of them (srvConf.skipReset: bit k%16 set = no Reset before the k-th use).
+	// Reset() is the documented way of re-use, so a value that was not reset is by contract still
+	// at the same request: what it was given since its last Reset counts as carried (see
+	// world.send). Two things are demanded of it: an ID it reports is proven by what it was given
+	// since the last Reset (same provenance rules, same instants), and a Run() that only issued a
+	// challenge (SetHeader wrote WWW-Authenticate) reports no peer through PeerID().
+	engNoReset
 )
 
-var engineNames = [...]string{"ServeHTTP", "handshake-fresh", "handshake-reused"}
+var engineNames = [...]string{"ServeHTTP", "handshake-fresh", "handshake-reused", "handshake-reset-forgotten"}
 
 type directServer struct {
 	s   *server
@@ -55,6 +63,22 @@ type directServer struct {
 	hs  *httppeeridauth.VerifHandshakeServer // engReused: the one value
 	// trace: what each request handled by this instance came to (for the coverage labels)
 	trace []string
+	// engNoReset: uses of the value so far; the Authorization values it was given since its last
+	// Reset (since) and the ones before the current request (prior); whether the current request
+	// is handled by a value that was NOT reset (unreset); a finding of ServeHTTP itself (violation)
+	nuse      int
+	since     []string
+	prior     string
+	unreset   bool
+	violation string
+}
+
+// tr notes what a request came to; "!" marks a request handled by a value that was not reset.
+func (d *directServer) tr(out string) {
+	if d.unreset {
+		out = "!" + out
+	}
+	d.trace = append(d.trace, out)
 }
 
 func newDirectServer(s *server, provided []byte) *directServer {
@@ -72,12 +96,20 @@ func newDirectServer(s *server, provided []byte) *directServer {
 func (d *directServer) get(hostname string) *httppeeridauth.VerifHandshakeServer {
 	if d.s.engine == engFresh || d.hs == nil {
 		hs := &httppeeridauth.VerifHandshakeServer{Hostname: hostname, PrivKey: d.s.ident.Priv, TokenTTL: d.s.ttl, Hmac: hmac.New(sha256.New, d.key)}
-		if d.s.engine == engReused {
+		if d.s.engine != engFresh {
 			d.hs = hs
 		}
+		d.nuse++
+		d.since, d.unreset = nil, false
 		return hs
 	}
-	d.hs.Reset()
+	if d.s.engine == engNoReset && d.s.skipReset>>(d.nuse%16)&1 == 1 {
+		d.unreset = true
+	} else {
+		d.hs.Reset()
+		d.since, d.unreset = nil, false
+	}
+	d.nuse++
 	d.hs.Hostname = hostname
 	return d.hs
 }
@@ -90,37 +122,47 @@ func (d *directServer) ServeHTTP(w http.ResponseWriter, r *http.Request) {
 		return
 	}
 	hs := d.get(hostname)
+	d.prior = strings.Join(d.since, " , ")
+	d.since = append(d.since, r.Header.Get("Authorization"))
 	if err := hs.ParseHeaderVal([]byte(r.Header.Get("Authorization"))); err != nil {
-		d.trace = append(d.trace, "parse-error")
+		d.tr("parse-error")
 		w.WriteHeader(http.StatusBadRequest)
 		return
 	}
 	if err := hs.Run(); err != nil {
 		switch err.Error() { // handshake.ErrInvalidHMAC, ErrExpiredChallenge, ErrExpiredToken
 		case "invalid HMAC", "challenge expired", "token expired":
-			d.trace = append(d.trace, "refused:"+strings.ReplaceAll(err.Error(), " ", "-"))
+			d.tr("refused:" + strings.ReplaceAll(err.Error(), " ", "-"))
 			hs = d.get(hostname)
-			_ = hs.Run()
+			if hs.Run() != nil { // only a value that was not reset: it is still at the refused request
+				d.tr("no-new-challenge")
+				w.WriteHeader(http.StatusUnauthorized)
+				return
+			}
 			hs.SetHeader(w.Header())
-			d.trace = append(d.trace, "challenge")
+			d.tr("challenge")
 			w.WriteHeader(http.StatusUnauthorized)
 			return
 		}
-		d.trace = append(d.trace, "refused")
+		d.tr("refused")
 		w.WriteHeader(http.StatusBadRequest)
 		return
 	}
 	hs.SetHeader(w.Header())
 	p, err := hs.PeerID()
 	if err != nil {
-		d.trace = append(d.trace, "challenge")
+		d.tr("challenge")
 		w.WriteHeader(http.StatusUnauthorized)
 		return
 	}
+	if ch := w.Header().Get("WWW-Authenticate"); ch != "" {
+		// this Run() verified nothing: it issued a challenge
+		d.violation = fmt.Sprintf("PeerID() reports peer %s after a Run() that only issued a challenge (WWW-Authenticate=%q)", p, ch)
+	}
 	if _, bearer := getParam(parseParams(r.Header.Get("Authorization")), "bearer"); bearer {
-		d.trace = append(d.trace, "token-accepted")
+		d.tr("token-accepted")
 	} else {
-		d.trace = append(d.trace, "answer-accepted")
+		d.tr("answer-accepted")
 	}
 	s.auth.Next(p, w, r)
 }
@@ -130,12 +172,17 @@ func (d *directServer) ServeHTTP(w http.ResponseWriter, r *http.Request) {
 func (w *world) reuseLabels() (labels []string, reused bool) {
 	for _, s := range w.srv {
 		labels = append(labels, "engine:"+engineNames[s.engine])
-		if s.engine != engReused {
+		if s.engine != engReused && s.engine != engNoReset {
 			continue
 		}
 		for i := 1; i < len(s.direct.trace); i++ {
 			reused = true
-			labels = append(labels, "reuse:"+s.direct.trace[i-1]+"->"+s.direct.trace[i])
+			prev, cur := strings.TrimPrefix(s.direct.trace[i-1], "!"), s.direct.trace[i]
+			if strings.HasPrefix(cur, "!") {
+				labels = append(labels, "reset-forgotten:"+prev+"->"+cur[1:])
+			} else {
+				labels = append(labels, "reuse:"+prev+"->"+cur)
+			}
 		}
 	}
 	return
@@ -172,6 +219,7 @@ type reuseScenario struct {
 	SrvKey  int           `json:"srv_key"`
 	TTL     int           `json:"ttl"`
 	Engines []int         `json:"engines"`
+	Skip    []int         `json:"skip_reset_mask"` // per worker (engine handshake-reset-forgotten): bit k%16 = no Reset() before the k-th use
 	Clients [3]int        `json:"client_key"`
 	Actions []reuseAction `json:"actions"`
 	Phase   int           `json:"start_phase_ns"` // the clock is moved off the whole second before anything is minted (instants_test.go)
@@ -182,9 +230,24 @@ func drawReuseScenario(rt *rapid.T) reuseScenario {
 	sc.SrvKey = rapid.IntRange(0, 3).Draw(rt, "srvkey")
 	sc.TTL = rapid.IntRange(0, len(ttlChoices)-1).Draw(rt, "ttl")
 	n := rapid.IntRange(1, 3).Draw(rt, "workers")
-	sc.Engines = []int{int(engReused)}
+	// worker 0 is a re-used value: properly reset (2/3) or with Reset() forgotten before some uses
+	sc.Engines = []int{int(rapid.SampledFrom([]engine{engReused, engReused, engNoReset}).Draw(rt, "engine0"))}
 	for i := 1; i < n; i++ {
-		sc.Engines = append(sc.Engines, int(rapid.SampledFrom([]engine{engReused, engFresh, engHTTP}).Draw(rt, "engine")))
+		sc.Engines = append(sc.Engines, int(rapid.SampledFrom([]engine{engReused, engFresh, engHTTP, engNoReset}).Draw(rt, "engine")))
+	}
+	for _, e := range sc.Engines {
+		m := 0
+		if engine(e) == engNoReset {
+			// forgotten always / before a drawn half of the uses / before one use in four
+			m = []int{0xffff, 0xffff, -1, -1, -2}[rapid.IntRange(0, 4).Draw(rt, "skipkind")]
+			switch m {
+			case -1:
+				m = rapid.IntRange(1, 0xffff).Draw(rt, "skipmask")
+			case -2:
+				m = rapid.IntRange(1, 0xffff).Draw(rt, "skipmask") & rapid.IntRange(1, 0xffff).Draw(rt, "skipmask2")
+			}
+		}
+		sc.Skip = append(sc.Skip, m)
 	}
 	for i := range sc.Clients {
 		sc.Clients[i] = rapid.SampledFrom([]int{0, 0, 0, 1, 2, 3}).Draw(rt, "clientkey") // mostly Ed25519: cheap
@@ -214,7 +277,7 @@ func TestServerReuse(t *testing.T) {
 		conf := make([]srvConf, len(sc.Engines))
 		for i, e := range sc.Engines {
 			// replicas: one private key, one application-provided HmacKey
-			conf[i] = srvConf{keyType: keys.Types[sc.SrvKey], ttl: ttlChoices[sc.TTL], secret: secretShared, ident: 0, engine: engine(e)}
+			conf[i] = srvConf{keyType: keys.Types[sc.SrvKey], ttl: ttlChoices[sc.TTL], secret: secretShared, ident: 0, engine: engine(e), skipReset: uint16(sc.Skip[i])}
 		}
 		var labels, fp []string
 		nontrivial := false
